@@ -216,6 +216,9 @@ func verifyFunction(P *Program, CS *ContractSet, L *Layout, ct *FuncContract, op
 			if (o.Kind == "vacuity" || o.Kind == "reach") && to > 10 {
 				to = 10
 			}
+			if o.Kind == "binds" && opts.Tier == "quick" && to > 60 {
+				to = 60 // relational obligations answer in seconds or not at all (the undecided ones are the listed known findings)
+			}
 			if o.Kind == "cover" && to > 20 {
 				to = 20 // only a refutation counts; a live statement usually ends in `unknown`
 			}
